@@ -93,6 +93,7 @@ func replayBeh(c *rp.Ctx, i int, steps []behStep, mode string) rp.Result {
 					return rp.Fail(i, "%s: output after the header is not the raw block: %s", at, rp.FirstDiff(got[7:], pay))
 				}
 				frame = got
+				c.Hold(i, fmt.Sprintf("frame returned by %s", at), got) // the caller's: later Encode calls must not write to it
 			}
 			stream = append(append([]byte(nil), stream...), frame...)
 			pend = append(pend, pendFrame{pay, frame})
